@@ -412,6 +412,18 @@ pub fn check_outcome(o: &Outcome, ovh: usize, vsz: usize) -> Vec<Fail> {
             }
         } else {
             fail(&mut v, "C05", format!("after {} the order is {:?} where {:?} is due", op.text(), got, want));
+            // the order clause of the operation's own property
+            let own = match op {
+                OpKind::MutSet { .. } | OpKind::MutRep { .. } => Some("C11"),
+                OpKind::RetainIdx(_) | OpKind::RetainIds(_) => Some("C15"),
+                OpKind::Reserve(_) | OpKind::TryReserve(_) | OpKind::Shrink(_) | OpKind::ShrinkFit => Some("C13"),
+                OpKind::It { .. } => Some("C12"),
+                OpKind::Ins { .. } | OpKind::TIns { .. } if o.ret.is_rejection() => Some("C10"),
+                _ => None,
+            };
+            if let Some(p) = own {
+                fail(&mut v, p, format!("after {} the order is {:?} where {:?} is due", op.text(), got, want));
+            }
         }
     } else if post.ord != ex.ord {
         let prop = match op {
